@@ -25,13 +25,19 @@ def orig(modname, name):
 
 
 def monitor(ctx, modname, name, post, label=None):
-    """Install post(ctx, original, args, kwargs, result) on kneeliverse.<modname>.<name>."""
+    """Install post(ctx, original, args, kwargs, result) on kneeliverse.<modname>.<name>.
+
+    Several monitors may be stacked on one function (the repository-test workload installs the
+    monitors of one property on top of each other where they share an entry point)."""
     mod = sys.modules['kneeliverse.' + modname]
-    original = getattr(mod, name)
-    if getattr(original, '_kneemon', False):
-        raise HarnessError(f'{modname}.{name} already monitored')
+    current = getattr(mod, name)
+    if getattr(current, '_kneemon', False):
+        current._posts.append(post)
+        return current._original
+    original = current
     _originals[(modname, name)] = original
     label = label or f'{modname}.{name}'
+    posts = [post]
 
     def wrapper(*args, **kwargs):
         if _active[0]:
@@ -39,7 +45,8 @@ def monitor(ctx, modname, name, post, label=None):
         result = original(*args, **kwargs)
         _active[0] = True
         try:
-            post(ctx, original, args, kwargs, result)
+            for p in posts:
+                p(ctx, original, args, kwargs, result)
         except (LoopBoundExceeded, HarnessError):
             raise
         except Exception as e:   # an oracle bug is never a verdict
@@ -54,6 +61,7 @@ def monitor(ctx, modname, name, post, label=None):
         pass
     wrapper._kneemon = True
     wrapper._original = original
+    wrapper._posts = posts
     setattr(mod, name, wrapper)
     return original
 
